@@ -11,6 +11,9 @@ NOTE = ("Trusted base: the Go type checker (go/types), go/packages loading of /r
 
 # id -> (technique, level text, design ref)
 CLAIMS = {
+ "C31": ("call-graph reachability (static calls, depth 3, gauge-argument constant propagation) from process-lifetime cache-fill regions to metering calls + purity scan of the usage constructors",
+         "Structural necessary conditions: no metering with a live gauge can happen while a process-lifetime cache is filled, and metered amounts depend only on their arguments and constants.",
+         "DESIGN.md §4 C31"),
  "C32": ("operation/estimate coherence (AST: usage constructor kind and operand order vs the big.Int operation of the same function) + dominance of UseMemory over the allocating constructor call (SSA)",
          "Structural necessary conditions: each per-operation big-integer estimate is charged for the operation actually performed with the same operands, and memory is charged before the result is allocated.",
          "DESIGN.md §4 C32"),
